@@ -238,6 +238,11 @@ def required_universe(ids=BOUNDARY_IDS):
     defs["TLsR"] = struct([field(1, "required", L(T("i32"))), field(2, "required", SET(T("string"))), field(3, "required", T("i32"))])
     defs["TLsR"]["decl"] = "rev"
     pairs.append(("WLs", "TLsR", "listset-required"))
+    # a reader declared with thrift tags only (the error must still name the field)
+    defs["TThr"] = struct([field(1, "required", T("i32")), field(64, "required", T("string")), field(65, "default", T("i16"))])
+    for f in defs["TThr"]["fields"]:
+        f["ttag"] = "wire%d,%d,%s" % (f["id"], f["id"], f["req"])
+    pairs.append(("WLeaf", "TThr", "thrift-tags-only"))
     # required fields at nested positions
     defs["WLeaf"] = struct([field(1, "optional", T("i32", True)), field(64, "optional", T("string", True))])
     defs["TLeafR"] = struct([field(1, "required", T("i32")), field(64, "required", T("string"))])
